@@ -89,7 +89,7 @@ type DatasetOpts struct {
 	EmptyRows     bool // sprinkle fully empty rows and a trailing block of them
 	Shapes        []ValueShape
 	TrailingEmpty int    // force that many fully empty rows at the end
-	Crafted       string // "container-edges" | "wide-rows": a fixed, hand-built dataset instead of a generated one
+	Crafted       string // "container-edges" | "wide-rows" | "dense" | "gb-product": a hand-built dataset instead of a generated one
 	// Concat builds a dataset whose column names are prefixes of each other and whose values complete them, so that
 	// different (column,value) pairs have equal concatenations ("a"+"bc" = "ab"+"c"): any key encoding that does not
 	// keep column and value apart confuses them.
@@ -156,6 +156,10 @@ func MakeDataset(rng *rand.Rand, id string, o DatasetOpts) *Dataset {
 		return d
 	case "dense":
 		d := Dense(rng, o.Rows, 6, 64)
+		d.ID = id
+		return d
+	case "gb-product":
+		d := GroupProduct(rng, o.Rows)
 		d.ID = id
 		return d
 	}
@@ -506,6 +510,34 @@ func Dense(rng *rand.Rand, rows, cols, card int) *Dataset {
 		r := oracle.Row{}
 		for c := 0; c < cols; c++ {
 			r["d"+itoa(c)] = itoa(rng.Intn(card))
+		}
+		ds.Rows = append(ds.Rows, r)
+	}
+	ds.Index()
+	return ds
+}
+
+// GroupProduct builds a dataset for group-by lists whose refinement steps are LARGE products (groups so far x values
+// of the next column >= 65536) although every group is tiny: a unique column u, columns t (40 values), s (220) and m
+// (300), each with the empty string among its values and missing on part of the rows, and a three-valued column kind.
+func GroupProduct(rng *rand.Rand, rows int) *Dataset {
+	ds := &Dataset{Unique: "u"}
+	val := func(prefix string, i, card int) string {
+		if i%card == 0 {
+			return "" // the empty string is a value like any other
+		}
+		return fmt.Sprintf("%s%03d", prefix, i%card)
+	}
+	for i := 0; i < rows; i++ {
+		r := oracle.Row{"u": fmt.Sprintf("u%05d", i), "kind": []string{"x", "y", "z"}[i%3]}
+		if i%5 != 1 {
+			r["t"] = val("t", i*7+i/40, 40)
+		}
+		if i%4 != 2 {
+			r["s"] = val("s", i*13+i/220, 220)
+		}
+		if i%6 != 3 {
+			r["m"] = val("m", i*11+i/300, 300)
 		}
 		ds.Rows = append(ds.Rows, r)
 	}
